@@ -282,10 +282,11 @@ def evaluate(rep, cases, harness, driver, stats):
             bad.append(("re-formatting the output failed", {"result": r2}))
         else:
             o2 = r2["ok"]
-            if facts_all[o2] != fin:
-                bad.append(("re-formatted output does not parse to the same policies", {"output2": o2}))
-            if fmtgen.scan_comments(o2) != cin:
-                bad.append(("re-formatting lost or reordered comments", {"input_comments": cin, "output2_comments": fmtgen.scan_comments(o2)}))
+            # "re-formatting any output still preserves policies and comments": relative to that output
+            if facts_all[o2] != facts_all[o1]:
+                bad.append(("re-formatted output does not parse to the same policies as the output", {"output2": o2}))
+            if fmtgen.scan_comments(o2) != fmtgen.scan_comments(o1):
+                bad.append(("re-formatting lost or reordered comments", {"output_comments": fmtgen.scan_comments(o1), "output2_comments": fmtgen.scan_comments(o2)}))
             if not cin and o2 != o1:
                 bad.append(("formatting comment-free text is not idempotent", {"output2": o2}))
                 stats["non_idempotent"] = stats.get("non_idempotent", 0) + 1
